@@ -467,10 +467,29 @@ def m_rem_euclid(I, st, args, dty, site):
     if bl > 0:
         if al >= 0 and ah < bl:
             return [(st, a)]
-        aff = D.aff_modulo(D.aff_of(a[1]), D.CONSTVAL[b[1]]) if b[1] in D.CONSTVAL else None
-        v = D.term_vid(st, ('rem_euclid', a[1], b[1]), 0, bh - 1, aff)
+        if b[1] in D.CONSTVAL:
+            q, r = D.divmod_euclid(st, a[1], D.CONSTVAL[b[1]])
+            return [(st, ('i', r, a[2]))]
+        v = D.term_vid(st, ('rem_euclid', a[1], b[1]), 0, bh - 1, None)
         return [(st, ('i', v, a[2]))]
     return [(st, I.top(st, dty, 'rem_euclid'))]
+
+
+@model_if(lambda n: n.startswith('core::num::<impl ') and n.endswith('::div_euclid'))
+def m_div_euclid(I, st, args, dty, site):
+    a, b = args[0], args[1]
+    if not (_intarg(a) and _intarg(b)):
+        return None
+    bl, bh = D.get_iv(st, b[1])
+    al, ah = D.get_iv(st, a[1])
+    tr = range_of_name(a[2])
+    o = site_obl(I, site, 'STDPRE')
+    okp = not (bl <= 0 <= bh) and not (al <= tr[0] and bl <= -1 <= bh)
+    I.record(o, okp, st, f'div_euclid divisor in [{bl},{bh}]', cause='div_euclid precondition')
+    if bl > 0 and b[1] in D.CONSTVAL:
+        q, r = D.divmod_euclid(st, a[1], D.CONSTVAL[b[1]])
+        return [(st, ('i', q, a[2]))]
+    return [(st, I.top(st, dty, 'div_euclid'))]
 
 
 @model_if(lambda n: n.startswith('core::num::<impl ') and (n.endswith('::checked_add') or n.endswith('::checked_sub') or n.endswith('::checked_mul')))
